@@ -154,6 +154,22 @@ pub fn run(thorough: bool) -> Report {
                                 detail: format!("after the history, {} gives {:?}; in a fresh interpreter with the same program and generator state it gives {:?}", cmd, t, fresh.0),
                                 case: case_history(&full, false, false),
                             });
+                        } else if !{
+                            // "the same random-number state": RUN itself leaves the generator alone, so
+                            // the state after the run lies on the sequence that starts at the state before
+                            let mut x = snap.rng_state;
+                            let mut on_orbit = x == fin.rng_state;
+                            for _ in 0..64 {
+                                x = crate::refmodel::lcg_next(x);
+                                on_orbit = on_orbit || x == fin.rng_state;
+                            }
+                            on_orbit
+                        } {
+                            out.push(Violation {
+                                signature: format!("{} {} moved the random generator off its sequence", p.name, cmd),
+                                detail: format!("generator state before {}: {}; after the run: {}, which is not within 64 steps of the documented sequence from there", cmd, snap.rng_state, fin.rng_state),
+                                case: case_history(&full, false, false),
+                            });
                         } else if fin != fresh.1 {
                             out.push(Violation {
                                 signature: format!("{} state after {} differs from a fresh interpreter", p.name, cmd),
